@@ -9,6 +9,8 @@
      PulseExact.v    pulse_never_early_once (any Pulse() oracle), pulse_exact (operation-free Pulse() oracle)
      PulseAsk.v      recalc_asks (GetPulseTime() is called exactly on the invalid attached nodes)
      PulseRefuted.v  reentrant_recalc_refuted (finding F16)
-     PulseFuel.v     fuel adequacy (apply_cop_fuel, get_aux_fuel, pulse_aux_fuel, step_total) *)
+     PulseFuel.v     fuel adequacy (apply_cop_fuel, get_aux_fuel, pulse_aux_fuel, step_total)
+     PulseDepth.v    small_rank: the depth is a rank bounded by the number of node ids in use
+     PulseFuelAny.v  fuel adequacy of the pulse sweep for arbitrary Pulse() oracles (step_total_any) *)
 From Muscle Require Export Pulse.PulseModel Pulse.PulseInv Pulse.PulseForest Pulse.PulseResched Pulse.PulseOps
-     Pulse.PulseSweep Pulse.PulseReach Pulse.PulseMin Pulse.PulseExact Pulse.PulseAsk Pulse.PulseRefuted Pulse.PulseFuel.
+     Pulse.PulseSweep Pulse.PulseReach Pulse.PulseMin Pulse.PulseExact Pulse.PulseAsk Pulse.PulseRefuted Pulse.PulseFuel Pulse.PulseDepth Pulse.PulseFuelAny.
